@@ -199,10 +199,14 @@ type c05Saved struct {
 	inflight []*hMsg
 	failed   map[int]bool
 	nextID   int
+	roleExp  *c03Expect // C03's history-based role expectation belongs to the state of the world
 }
 
 func c05Save(w *hWorld) *c05Saved {
 	s := &c05Saved{shards: shardMaps(w, true), inflight: append([]*hMsg(nil), w.inflight...), failed: map[int]bool{}, nextID: w.nextID}
+	if e := c03Exp[w]; e != nil {
+		s.roleExp = e.clone()
+	}
 	for k, v := range w.failed {
 		s.failed[k] = v
 	}
@@ -222,6 +226,11 @@ func c05Restore(w *hWorld, s *c05Saved) {
 		w.failed[k] = v
 	}
 	w.nextID = s.nextID
+	if s.roleExp != nil {
+		c03Exp[w] = s.roleExp.clone()
+	} else {
+		delete(c03Exp, w)
+	}
 }
 
 // ---- scenario driver: scripted / enumerated calls with monitors and Coq-case emission ----
